@@ -1,18 +1,29 @@
-// Harness for C14: drives std/encoding name functions on generated inputs and writes a trace for the Coq runner.
+// Harness for C14: drives the std/encoding name functions on generated inputs and writes a trace for the Coq runner.
+//
+// Every trace line is "<KIND> <inputs...> <observations...>" (single spaces).  The inputs alone determine the line:
+// TestReplay re-executes the implementation on the inputs of given lines (corpus files, replay files), so a stored
+// line is a stored test case.  Line formats are documented in runner/Names/driver.ml.
 package names
 
 import (
 	"bufio"
+	"bytes"
+	"crypto/sha256"
 	"encoding/hex"
 	"fmt"
 	"math/rand"
 	"os"
+	"path/filepath"
+	"sort"
 	"strconv"
 	"strings"
 	"testing"
 
 	enc "github.com/named-data/ndnd/std/encoding"
 )
+
+// ---------------------------------------------------------------------------------------------------------------
+// text forms
 
 func hx(b []byte) string {
 	if len(b) == 0 {
@@ -21,41 +32,440 @@ func hx(b []byte) string {
 	return hex.EncodeToString(b)
 }
 
+func unhx(s string) []byte {
+	if s == "-" {
+		return []byte{}
+	}
+	b, err := hex.DecodeString(s)
+	if err != nil {
+		panic("bad hex in input line: " + s)
+	}
+	return b
+}
+
+func compStr(c enc.Component) string {
+	return strconv.FormatUint(uint64(c.Typ), 10) + ":" + hex.EncodeToString(c.Val)
+}
+
 func nameStr(n enc.Name) string {
 	if len(n) == 0 {
 		return "-"
 	}
 	parts := make([]string, len(n))
 	for i, c := range n {
-		parts[i] = strconv.FormatUint(uint64(c.Typ), 10) + ":" + hex.EncodeToString(c.Val)
+		parts[i] = compStr(c)
 	}
 	return strings.Join(parts, ",")
 }
 
-type gen struct{ r *rand.Rand }
+func parseComp(s string) enc.Component {
+	i := strings.IndexByte(s, ':')
+	t, err := strconv.ParseUint(s[:i], 10, 64)
+	if err != nil {
+		panic("bad component in input line: " + s)
+	}
+	v, err := hex.DecodeString(s[i+1:])
+	if err != nil {
+		panic("bad component in input line: " + s)
+	}
+	return enc.Component{Typ: enc.TLNum(t), Val: v}
+}
 
-var interestingTypes = []uint64{8, 8, 8, 8, 1, 2, 32, 50, 52, 54, 56, 58, 9, 252, 253, 255, 256, 65535}
-var wildTypes = []uint64{0, 65536, 1 << 32, 1<<64 - 1, 4294967295, 4294967296}
-var specialBytes = []byte{'.', '%', '=', '/', '\\', '~', '-', '_', 'a', 'Z', '0', '9', 0, 0x7f, 0x80, 0xff, 0xb2, ' ', '+'}
+func parseName(s string) enc.Name {
+	if s == "-" {
+		return enc.Name{}
+	}
+	parts := strings.Split(s, ",")
+	n := make(enc.Name, len(parts))
+	for i, p := range parts {
+		n[i] = parseComp(p)
+	}
+	return n
+}
+
+func cpatStr(c enc.ComponentPattern) string {
+	switch v := c.(type) {
+	case enc.Component:
+		return "C~" + compStr(v)
+	case *enc.Component:
+		return "C~" + compStr(*v)
+	case enc.Pattern:
+		return "P~" + strconv.FormatUint(uint64(v.Typ), 10) + ":" + hex.EncodeToString([]byte(v.Tag))
+	case *enc.Pattern:
+		return "P~" + strconv.FormatUint(uint64(v.Typ), 10) + ":" + hex.EncodeToString([]byte(v.Tag))
+	default:
+		return "?"
+	}
+}
+
+func npatStr(n enc.NamePattern) string {
+	if len(n) == 0 {
+		return "-"
+	}
+	parts := make([]string, len(n))
+	for i, c := range n {
+		parts[i] = cpatStr(c)
+	}
+	return strings.Join(parts, ",")
+}
+
+func b01(b bool) string {
+	if b {
+		return "1"
+	}
+	return "0"
+}
+
+// ---------------------------------------------------------------------------------------------------------------
+// emitters: run the implementation on given inputs, write one trace line, count the category
+
+type emitter struct {
+	w    *bufio.Writer
+	dist map[string]int
+}
+
+func (e *emitter) count(k string) { e.dist[k]++ }
+
+// guard runs f and returns "panic" if it panicked
+func guard(f func() string) (res string) {
+	defer func() {
+		if r := recover(); r != nil {
+			res = "panic"
+		}
+	}()
+	return f()
+}
+
+func (e *emitter) pair(a, b enc.Name) {
+	e.count("PAIR")
+	obs := guard(func() string {
+		return fmt.Sprintf("%d %s %s %s %d %s %s %s", a.Compare(b), b01(a.Equal(b)), b01(a.IsPrefix(b)), b01(b.IsPrefix(a)),
+			b.Compare(a), b01(a.Hash() == b.Hash()), hx(a.Bytes()), hx(b.Bytes()))
+	})
+	fmt.Fprintf(e.w, "PAIR %s %s %s\n", nameStr(a), nameStr(b), obs)
+}
+
+func (e *emitter) triple(a, b, c enc.Name) {
+	e.count("TRIPLE")
+	obs := guard(func() string {
+		return fmt.Sprintf("%d %d %d %d %d %d", a.Compare(b), b.Compare(c), a.Compare(c), b.Compare(a), c.Compare(b), c.Compare(a))
+	})
+	fmt.Fprintf(e.w, "TRIPLE %s %s %s %s\n", nameStr(a), nameStr(b), nameStr(c), obs)
+}
+
+func (e *emitter) comp(c, d enc.Component) {
+	e.count("COMP")
+	obs := guard(func() string {
+		return fmt.Sprintf("%d %s %s %s", c.Compare(d), b01(c.Equal(d)), hx(c.Bytes()), hx(d.Bytes()))
+	})
+	fmt.Fprintf(e.w, "COMP %s %s %s\n", compStr(c), compStr(d), obs)
+}
+
+func (e *emitter) nameBytes(a enc.Name) {
+	e.count("BYTES")
+	fmt.Fprintf(e.w, "BYTES %s %s\n", nameStr(a), guard(func() string { return hx(a.Bytes()) }))
+}
+
+func (e *emitter) fromBytes(in []byte) {
+	e.count("FROMBYTES")
+	res := guard(func() string {
+		n, err := enc.NameFromBytes(in)
+		if err != nil {
+			return "err"
+		}
+		return "ok " + nameStr(n)
+	})
+	fmt.Fprintf(e.w, "FROMBYTES %s %s\n", hx(in), res)
+}
+
+func (e *emitter) hash(a enc.Name) {
+	e.count("HASH")
+	res := guard(func() string {
+		hok := true
+		c := a.Clone()
+		if c.Hash() != a.Hash() {
+			hok = false
+		}
+		ph := a.PrefixHash()
+		if len(ph) != len(a)+1 {
+			hok = false
+		} else {
+			for k := 0; k <= len(a); k++ {
+				if ph[k] != a[:k].Clone().Hash() {
+					hok = false
+				}
+			}
+		}
+		// a single component hashes like the one-component name
+		for _, c := range a {
+			if c.Hash() != (enc.Name{c}).Hash() {
+				hok = false
+			}
+		}
+		return b01(hok)
+	})
+	fmt.Fprintf(e.w, "HASH %s %s\n", nameStr(a), res)
+}
+
+func parseRes(s string) string {
+	return guard(func() string {
+		n, err := enc.NameFromStr(s)
+		if err != nil {
+			return "err"
+		}
+		return "ok " + nameStr(n)
+	})
+}
+
+func cparseRes(s string) string {
+	return guard(func() string {
+		c, err := enc.ComponentFromStr(s)
+		if err != nil {
+			return "err"
+		}
+		return "ok=" + compStr(c)
+	})
+}
+
+func (e *emitter) str(u enc.Name) {
+	e.count("STR")
+	fmt.Fprintf(e.w, "STR %s %s\n", nameStr(u), guard(func() string { return hx([]byte(u.String())) }))
+}
+
+func (e *emitter) rt(u enc.Name) {
+	e.count("RT")
+	res := guard(func() string { return parseRes(u.String()) })
+	fmt.Fprintf(e.w, "RT %s %s\n", nameStr(u), res)
+}
+
+func (e *emitter) cstr(c enc.Component) {
+	e.count("CSTR")
+	res := guard(func() string { return hx([]byte(c.String())) + " " + hx([]byte(c.CanonicalString())) })
+	fmt.Fprintf(e.w, "CSTR %s %s\n", compStr(c), res)
+}
+
+func (e *emitter) crt(c enc.Component) {
+	e.count("CRT")
+	res := guard(func() string { return cparseRes(c.String()) + " " + cparseRes(c.CanonicalString()) })
+	fmt.Fprintf(e.w, "CRT %s %s\n", compStr(c), res)
+}
+
+func (e *emitter) parse(s string) {
+	e.count("PARSE")
+	fmt.Fprintf(e.w, "PARSE %s %s\n", hx([]byte(s)), parseRes(s))
+}
+
+func (e *emitter) cparse(s string) {
+	e.count("CPARSE")
+	fmt.Fprintf(e.w, "CPARSE %s %s\n", hx([]byte(s)), cparseRes(s))
+}
+
+func (e *emitter) pparse(s string) {
+	e.count("PPARSE")
+	res := guard(func() string {
+		n, err := enc.NamePatternFromStr(s)
+		if err != nil {
+			return "err"
+		}
+		return "ok " + npatStr(n) + " " + hx([]byte(n.String()))
+	})
+	fmt.Fprintf(e.w, "PPARSE %s %s\n", hx([]byte(s)), res)
+}
+
+func (e *emitter) cpparse(s string) {
+	e.count("CPPARSE")
+	res := guard(func() string {
+		c, err := enc.ComponentPatternFromStr(s)
+		if err != nil {
+			return "err"
+		}
+		return "ok " + cpatStr(c) + " " + hx([]byte(c.String()))
+	})
+	fmt.Fprintf(e.w, "CPPARSE %s %s\n", hx([]byte(s)), res)
+}
+
+func (e *emitter) ppair(s1, s2 string) {
+	e.count("PPAIR")
+	res := guard(func() string {
+		p1, err1 := enc.NamePatternFromStr(s1)
+		p2, err2 := enc.NamePatternFromStr(s2)
+		if err1 != nil || err2 != nil {
+			return "err"
+		}
+		return fmt.Sprintf("ok %d %s", p1.Compare(p2), b01(p1.Equal(p2)))
+	})
+	fmt.Fprintf(e.w, "PPAIR %s %s %s\n", hx([]byte(s1)), hx([]byte(s2)), res)
+}
+
+func (e *emitter) full(a enc.Name) {
+	e.count("FULL")
+	raw := []byte{6, 3, 7, 1, 0}
+	dg := sha256.Sum256(raw)
+	res := guard(func() string {
+		n := a.Clone().ToFullName(enc.Wire{raw})
+		return "ok " + nameStr(n)
+	})
+	fmt.Fprintf(e.w, "FULL %s %s %s\n", nameStr(a), hex.EncodeToString(dg[:]), res)
+}
+
+// conventions: black-box probe of the naming-convention table through Component.String()
+func (e *emitter) conventions() {
+	probe := func(t uint64) {
+		s := enc.Component{Typ: enc.TLNum(t), Val: []byte{1}}.String()
+		i := strings.IndexByte(s, '=')
+		if i < 0 {
+			if t != 8 {
+				fmt.Fprintf(e.w, "CONV %d %s noeq\n", t, hx([]byte(s)))
+			}
+			return
+		}
+		pre, val := s[:i], s[i+1:]
+		if pre == strconv.FormatUint(t, 10) && val == "%01" {
+			return // no convention
+		}
+		f := "?"
+		switch val {
+		case "1":
+			f = "dec"
+		case "01":
+			f = "hex"
+		case "%01":
+			f = "text"
+		}
+		fmt.Fprintf(e.w, "CONV %d %s %s\n", t, hx([]byte(pre)), f)
+		e.count("CONV")
+	}
+	for t := uint64(0); t <= 70000; t++ {
+		probe(t)
+	}
+	for _, t := range []uint64{1 << 32, 1<<32 + 50, 1<<63 + 50, 1<<64 - 1} {
+		probe(t)
+	}
+}
+
+// reexec re-executes the implementation on the inputs of a stored trace line
+func (e *emitter) reexec(line string) bool {
+	f := strings.Split(strings.TrimSpace(line), " ")
+	if len(f) < 2 {
+		return false
+	}
+	defer func() {
+		if r := recover(); r != nil {
+			fmt.Fprintf(e.w, "BADINPUT %s\n", f[0])
+		}
+	}()
+	switch f[0] {
+	case "PAIR":
+		e.pair(parseName(f[1]), parseName(f[2]))
+	case "TRIPLE":
+		e.triple(parseName(f[1]), parseName(f[2]), parseName(f[3]))
+	case "COMP":
+		e.comp(parseComp(f[1]), parseComp(f[2]))
+	case "BYTES":
+		e.nameBytes(parseName(f[1]))
+	case "FROMBYTES":
+		e.fromBytes(unhx(f[1]))
+	case "HASH":
+		e.hash(parseName(f[1]))
+	case "STR":
+		e.str(parseName(f[1]))
+	case "RT":
+		e.rt(parseName(f[1]))
+	case "CSTR":
+		e.cstr(parseComp(f[1]))
+	case "CRT":
+		e.crt(parseComp(f[1]))
+	case "PARSE":
+		e.parse(string(unhx(f[1])))
+	case "CPARSE":
+		e.cparse(string(unhx(f[1])))
+	case "PPARSE":
+		e.pparse(string(unhx(f[1])))
+	case "CPPARSE":
+		e.cpparse(string(unhx(f[1])))
+	case "PPAIR":
+		e.ppair(string(unhx(f[1])), string(unhx(f[2])))
+	case "FULL":
+		e.full(parseName(f[1]))
+	default:
+		return false
+	}
+	return true
+}
+
+// ---------------------------------------------------------------------------------------------------------------
+// generators
+
+type gen struct {
+	r    *rand.Rand
+	e    *emitter
+	huge int // remaining budget of 65535/65536-byte components
+}
+
+var interestingTypes = []uint64{8, 8, 8, 8, 8, 1, 2, 32, 50, 52, 54, 56, 58, 9, 7, 49, 51, 59, 252, 253, 254, 255, 256, 65534, 65535}
+var wildTypes = []uint64{0, 65536, 65537, 1<<32 - 1, 1 << 32, 1<<32 + 1, 1<<63 - 1, 1 << 63, 1<<64 - 1}
+var specialBytes = []byte{'.', '%', '=', '/', '\\', '~', '-', '_', 'a', 'z', 'A', 'Z', '0', '9', 0, 0x7f, 0x80, 0xff, 0xb2, ' ', '+', '<', '>', '@', '[', '`', '{', ':', 0xc3, 0xa9}
+var boundaryLens = []int{252, 253, 254, 255, 256, 257, 300}
+var hugeLens = []int{65535, 65536, 65537}
+var natValues = []uint64{0, 1, 5, 252, 253, 255, 256, 257, 65535, 65536, 1<<32 - 1, 1 << 32, 1<<63 - 1, 1 << 63, 1<<64 - 1}
+
+func (g *gen) lenClass(l int) string {
+	switch {
+	case l == 0:
+		return "len0"
+	case l == 1:
+		return "len1"
+	case l < 252:
+		return "len2-251"
+	case l <= 257:
+		return "len" + strconv.Itoa(l)
+	case l < 65535:
+		return "len258-65534"
+	default:
+		return "len" + strconv.Itoa(l)
+	}
+}
+
+func (g *gen) fill(l int) []byte {
+	b := make([]byte, l)
+	switch g.r.Intn(3) {
+	case 0:
+		for i := range b {
+			b[i] = byte('a' + g.r.Intn(3))
+		}
+	case 1:
+		for i := range b {
+			b[i] = byte(g.r.Intn(256))
+		}
+	default:
+		for i := range b {
+			b[i] = specialBytes[g.r.Intn(len(specialBytes))]
+		}
+	}
+	return b
+}
 
 func (g *gen) val() []byte {
-	switch g.r.Intn(10) {
+	switch g.r.Intn(12) {
 	case 0:
 		return []byte{}
 	case 1:
 		return []byte{'.'}
 	case 2:
 		return []byte{'.', '.'}
-	case 3: // boundary sized
-		ls := []int{252, 253, 254, 255, 256, 300}
-		l := ls[g.r.Intn(len(ls))]
-		b := make([]byte, l)
-		for i := range b {
-			b[i] = byte('a' + g.r.Intn(3))
+	case 3: // encoding-boundary sized
+		return g.fill(boundaryLens[g.r.Intn(len(boundaryLens))])
+	case 4:
+		if g.huge > 0 && g.r.Intn(3) == 0 {
+			g.huge--
+			return g.fill(hugeLens[g.r.Intn(len(hugeLens))])
 		}
-		return b
+		return g.fill(1)
+	case 5: // looks like URI syntax
+		s := []string{"seg=5", "a=b", "8=a", "%41", "%", "%4", "a/b", "/", "=", "sha256digest=00", "...", "<x>", "<seg=x>"}
+		return []byte(s[g.r.Intn(len(s))])
 	default:
-		l := g.r.Intn(5)
+		l := g.r.Intn(6)
 		b := make([]byte, l)
 		for i := range b {
 			if g.r.Intn(2) == 0 {
@@ -68,22 +478,58 @@ func (g *gen) val() []byte {
 	}
 }
 
-func (g *gen) comp(wild bool) enc.Component {
-	t := interestingTypes[g.r.Intn(len(interestingTypes))]
-	if wild && g.r.Intn(6) == 0 {
-		t = wildTypes[g.r.Intn(len(wildTypes))]
+func (g *gen) typ(wild bool) uint64 {
+	if wild && g.r.Intn(5) == 0 {
+		return wildTypes[g.r.Intn(len(wildTypes))]
 	}
+	if g.r.Intn(12) == 0 {
+		return uint64(1 + g.r.Intn(65535))
+	}
+	return interestingTypes[g.r.Intn(len(interestingTypes))]
+}
+
+func isNumConv(t uint64) bool { return t >= 50 && t <= 58 && t%2 == 0 }
+
+func (g *gen) comp(wild bool) enc.Component {
+	t := g.typ(wild)
 	v := g.val()
-	// numeric conventions: mostly shortest-form values
-	if t >= 50 && t <= 58 && g.r.Intn(4) != 0 {
-		xs := []uint64{0, 1, 255, 256, 65535, 65536, 1<<32 - 1, 1 << 32, 1<<64 - 1, uint64(g.r.Int63())}
-		v = enc.Nat(xs[g.r.Intn(len(xs))]).Bytes()
+	if isNumConv(t) {
+		switch g.r.Intn(8) {
+		case 0: // arbitrary value (usually non-shortest)
+		case 1: // non-shortest on purpose: leading zero bytes / odd widths / 9 bytes
+			x := natValues[g.r.Intn(len(natValues))]
+			v = append(make([]byte, 1+g.r.Intn(3)), enc.Nat(x).Bytes()...)
+		default:
+			x := natValues[g.r.Intn(len(natValues))]
+			if g.r.Intn(3) == 0 {
+				x = g.r.Uint64() >> uint(g.r.Intn(64))
+			}
+			v = enc.Nat(x).Bytes()
+		}
+	}
+	g.e.count("comp-" + g.lenClass(len(v)))
+	switch {
+	case t == 8:
+		g.e.count("typ-generic")
+	case t == 1 || t == 2:
+		g.e.count("typ-sha")
+	case isNumConv(t):
+		g.e.count("typ-numconv")
+	case t == 0 || t > 65535:
+		g.e.count("typ-outside-1..65535")
+	case t >= 252 && t <= 256:
+		g.e.count("typ-252..256")
+	default:
+		g.e.count("typ-other")
 	}
 	return enc.Component{Typ: enc.TLNum(t), Val: v}
 }
 
 func (g *gen) name(wild bool) enc.Name {
 	l := g.r.Intn(5)
+	if g.r.Intn(20) == 0 {
+		l = 5 + g.r.Intn(12)
+	}
 	n := make(enc.Name, l)
 	for i := range n {
 		n[i] = g.comp(wild)
@@ -94,7 +540,9 @@ func (g *gen) name(wild bool) enc.Name {
 // mutate returns a name adversarially close to n
 func (g *gen) mutate(n enc.Name) enc.Name {
 	m := n.Clone()
-	switch g.r.Intn(8) {
+	k := g.r.Intn(11)
+	g.e.count("mut-" + []string{"same", "prefix", "extend", "bitflip", "bitflip", "typ+-1", "len+-1", "fresh", "swaplen", "dup-last", "byte+-1"}[k])
+	switch k {
 	case 0:
 		return m
 	case 1:
@@ -133,67 +581,339 @@ func (g *gen) mutate(n enc.Name) enc.Name {
 		}
 	case 7:
 		return g.name(false)
+	case 8: // shorter value with larger bytes vs longer value with smaller bytes (length before bytes)
+		if len(m) > 0 {
+			i := g.r.Intn(len(m))
+			v := m[i].Val
+			if len(v) > 0 {
+				w := append([]byte(nil), v[:len(v)-1]...)
+				if len(w) > 0 {
+					w[0] = 0xff
+				}
+				m[i].Val = w
+			} else {
+				m[i].Val = []byte{0, 0}
+			}
+		}
+	case 9:
+		if len(m) > 0 {
+			return append(m, m[len(m)-1].Clone())
+		}
+	case 10:
+		if len(m) > 0 {
+			i := g.r.Intn(len(m))
+			if len(m[i].Val) > 0 {
+				j := g.r.Intn(len(m[i].Val))
+				if g.r.Intn(2) == 0 {
+					m[i].Val[j]++
+				} else {
+					m[i].Val[j]--
+				}
+			}
+		}
 	}
 	return m
 }
 
-func uriWf(n enc.Name) bool {
-	for _, c := range n {
-		if c.Typ < 1 || c.Typ > 65535 {
-			return false
-		}
-		if c.Typ >= 50 && c.Typ <= 58 && c.Typ%2 == 0 {
-			// numeric conventions: value must be the shortest-form Nat encoding
-			if l := len(c.Val); l != 1 && l != 2 && l != 4 && l != 8 {
-				return false
-			}
-			x := uint64(0)
-			for _, b := range c.Val {
-				x = x<<8 | uint64(b)
-			}
-			if len(enc.Nat(x).Bytes()) != len(c.Val) {
-				return false
-			}
-		}
-	}
-	return true
-}
-
-func parseLine(w *bufio.Writer, kind string, s string, extra string) {
-	var res string
-	func() {
-		defer func() {
-			if e := recover(); e != nil {
-				res = "panic"
-			}
-		}()
-		n, err := enc.NameFromStr(s)
-		if err != nil {
-			res = "err"
-		} else {
-			res = "ok " + nameStr(n)
-		}
-	}()
-	fmt.Fprintf(w, "%s %s%s %s\n", kind, extra, "", res)
-}
+var uriAlphabet = []string{"/", "/", "/", "=", "%", "%4", "%41", "%zz", "%2F", "%2f", "%3D", "%25", "a", "b", ".", "..", "...", "seg", "v", "t", "off", "seq",
+	"sha256digest", "params-sha256", "seg=", "v=", "8=", "0=", "1=", "2=", "50=", "0", "1", "8", "9", "32", "007", "65535", "65536",
+	"18446744073709551615", "18446744073709551616", "00", "ff", "FF", "aB", "\\", " ", "\xff", "\xc3\xa9", "\xef\xbc\x9d", "+", "-", "~", "_",
+	"<", ">", "<a>", "<seg=n>", "<8=x>", "<=", "=>", "<>", "Seg", "SEG", "x=", "+1", "-1", "1e3", "0x10", "١"}
 
 func (g *gen) uriString() string {
-	alphabet := []string{"/", "/", "=", "%", "%4", "%41", "%zz", "a", "b", ".", "..", "seg", "v", "t", "off", "seq", "sha256digest", "params-sha256",
-		"0", "1", "8", "9", "32", "65535", "65536", "18446744073709551615", "18446744073709551616", "00", "ff", "FF", "\\", " ", "\xff", "\xc3\xa9", "+", "-", "~", "_"}
 	var sb strings.Builder
-	k := g.r.Intn(8)
+	k := g.r.Intn(9)
 	for i := 0; i < k; i++ {
-		sb.WriteString(alphabet[g.r.Intn(len(alphabet))])
+		sb.WriteString(uriAlphabet[g.r.Intn(len(uriAlphabet))])
 	}
 	return sb.String()
 }
 
-func TestTrace(t *testing.T) {
-	seed, _ := strconv.ParseInt(os.Getenv("VERIF_SEED"), 10, 64)
-	ncases, _ := strconv.Atoi(os.Getenv("VERIF_N"))
-	if ncases == 0 {
-		ncases = 200
+// mostly well-formed URI with typed components
+func (g *gen) goodUri() string {
+	var sb strings.Builder
+	k := g.r.Intn(5)
+	for i := 0; i < k; i++ {
+		sb.WriteString("/")
+		switch g.r.Intn(7) {
+		case 0:
+			sb.WriteString([]string{"seg", "off", "v", "t", "seq"}[g.r.Intn(5)] + "=" + strconv.FormatUint(natValues[g.r.Intn(len(natValues))], 10))
+		case 1:
+			sb.WriteString([]string{"sha256digest", "params-sha256"}[g.r.Intn(2)] + "=" + hex.EncodeToString(g.fill(g.r.Intn(4))))
+		case 2:
+			sb.WriteString(strconv.Itoa(g.r.Intn(70000)) + "=" + enc.Component{Typ: 8, Val: g.val()}.String())
+		case 3:
+			sb.WriteString("<" + []string{"", "seg=", "8=", "300=", "v="}[g.r.Intn(5)] + []string{"x", "tag", "", "a=b", "a/b"}[g.r.Intn(5)] + ">")
+		default:
+			v := g.val()
+			if len(v) > 300 {
+				v = v[:300]
+			}
+			sb.WriteString(enc.Component{Typ: 8, Val: v}.String())
+		}
 	}
+	if g.r.Intn(4) == 0 {
+		sb.WriteString("/")
+	}
+	return sb.String()
+}
+
+// malformed stream: take a string and damage it
+func (g *gen) damage(s string) string {
+	b := []byte(s)
+	switch g.r.Intn(6) {
+	case 0:
+		if len(b) > 0 {
+			b = b[:g.r.Intn(len(b))]
+		}
+	case 1:
+		if len(b) > 0 {
+			b[g.r.Intn(len(b))] = byte(g.r.Intn(256))
+		}
+	case 2:
+		i := g.r.Intn(len(b) + 1)
+		ins := []string{"=", "%", "/", "<", ">", "\\", "%g", "\x00"}[g.r.Intn(8)]
+		b = append(b[:i:i], append([]byte(ins), b[i:]...)...)
+	case 3:
+		if len(b) > 1 {
+			i := g.r.Intn(len(b) - 1)
+			b = append(b[:i:i], b[i+1:]...)
+		}
+	case 4:
+		b = append(b, b...)
+	case 5:
+		b = g.fill(g.r.Intn(12))
+	}
+	return string(b)
+}
+
+// ---------------------------------------------------------------------------------------------------------------
+// fixed regression inputs (parsers) — always first
+
+var fixedStrings = []string{"", "/", "//", "///", "/=abc", "=", "=a", "a=", "/a/=", "/8=a", "/0=a", "/seg=", "/seg=x", "/seg=5", "/50=%00%05",
+	"/v=18446744073709551616", "/v=18446744073709551615", "/%", "/%4", "/%41", "/a%2Fb", "/a%2fb", "/sha256digest=0", "/sha256digest=zz",
+	"/sha256digest=AB", "/a=b=c", "/./..", "/65536=a", "/65535=a", "/1=abcd", "/1=%ab", "<", ">", "<>", "<=>", "<a", "a>", "/<a>", "/<a>/", "/<seg=n>/b",
+	"/<=x>", "/<x=y>", "/<8=a=b>", "/<0=t>", "/<70000=t>", "/a/<b>//", "<a>/<b>", "/<a/b>", "%41%", "%%41", "/a\\b", "a", "a/", "/a/", "/a//", "/a//b"}
+
+func runFixed(e *emitter) {
+	for _, s := range fixedStrings {
+		e.parse(s)
+		e.cparse(s)
+		e.pparse(s)
+		e.cpparse(s)
+		e.cpparse(strings.TrimPrefix(s, "/"))
+	}
+	// structural witnesses named in the notes (informational: model and implementation must agree on them)
+	a := enc.Name{{Typ: 8, Val: []byte{0, 0, 0, 0, 0, 0, 0, 8}}}
+	b := enc.Name{{Typ: 8, Val: []byte{}}, {Typ: 8, Val: []byte{}}}
+	e.pair(a, b) // same hash input, different names
+	c := enc.Name{{Typ: 50, Val: []byte{0, 5}}}
+	d := enc.Name{{Typ: 50, Val: []byte{5}}}
+	e.pair(c, d) // same String(), different names
+	e.str(c)
+	e.str(d)
+	e.rt(c)
+	e.full(enc.Name{})
+	e.full(d)
+	e.full(enc.Name{{Typ: 1, Val: make([]byte, 32)}})
+}
+
+// systematic sweeps: all 256 byte values in each position of short values, every encoding-boundary length and type
+func runSweeps(e *emitter, g *gen, thorough bool) {
+	for b := 0; b < 256; b++ {
+		vals := [][]byte{{byte(b)}, {byte(b), 'a'}, {'a', byte(b)}, {'%', byte(b), '0'}, {byte(b), byte(b)}}
+		for vi, v := range vals {
+			c := enc.Component{Typ: 8, Val: v}
+			e.count("sweep-byte")
+			e.cstr(c)
+			e.crt(c)
+			if vi < 3 {
+				n := enc.Name{{Typ: 8, Val: []byte("p")}, c}
+				e.rt(n)
+				// neighbour in the order: next byte value in the same position
+				w := append([]byte(nil), v...)
+				for i := range w {
+					if w[i] == byte(b) {
+						w[i] = byte(b + 1)
+						break
+					}
+				}
+				e.pair(n, enc.Name{{Typ: 8, Val: []byte("p")}, {Typ: 8, Val: w}})
+				e.comp(c, enc.Component{Typ: 8, Val: w})
+			}
+			// as a parser input, raw
+			e.cparse(string(v))
+		}
+		// typed and hex/dec conventions with this byte
+		for _, t := range []uint64{1, 32, 50, 300} {
+			c := enc.Component{Typ: enc.TLNum(t), Val: []byte{byte(b)}}
+			e.cstr(c)
+			e.crt(c)
+		}
+		e.parse("/" + string([]byte{byte(b)}))
+		e.parse("/a" + string([]byte{byte(b)}) + "b/c")
+		e.parse("/%" + string([]byte{byte(b)}) + "1")
+		e.parse("/%4" + string([]byte{byte(b)}))
+		e.parse("/" + string([]byte{byte(b)}) + "=a")
+		e.parse("/seg=" + string([]byte{byte(b)}))
+		e.parse("/sha256digest=a" + string([]byte{byte(b)}))
+		e.pparse("/<" + string([]byte{byte(b)}) + ">")
+		e.pparse("/" + string([]byte{byte(b)}) + "a>")
+		e.cpparse("<a" + string([]byte{byte(b)}))
+	}
+	lens := []int{0, 1, 2, 251, 252, 253, 254, 255, 256, 257, 65535, 65536}
+	if thorough {
+		lens = append(lens, 65537, 70000, 1<<16+300)
+	}
+	for _, l := range lens {
+		for _, t := range []uint64{8, 32, 1} {
+			v := bytes.Repeat([]byte{'x'}, l)
+			c := enc.Component{Typ: enc.TLNum(t), Val: v}
+			e.count("sweep-len-" + strconv.Itoa(l))
+			// neighbours: one byte shorter with a larger last byte, one byte longer, same length last byte +1
+			var nb []enc.Component
+			if l > 0 {
+				s := append([]byte(nil), v[:l-1]...)
+				if len(s) > 0 {
+					s[0] = 'z'
+				}
+				nb = append(nb, enc.Component{Typ: enc.TLNum(t), Val: s})
+				s2 := append([]byte(nil), v...)
+				s2[l-1]++
+				nb = append(nb, enc.Component{Typ: enc.TLNum(t), Val: s2})
+			}
+			l1 := append(append([]byte(nil), v...), 0)
+			l1[0] = 'a'
+			nb = append(nb, enc.Component{Typ: enc.TLNum(t), Val: l1})
+			for _, d := range nb {
+				e.comp(c, d)
+				e.pair(enc.Name{c}, enc.Name{d})
+			}
+			n := enc.Name{{Typ: 8, Val: []byte("a")}, c, {Typ: 50, Val: []byte{7}}}
+			e.nameBytes(n)
+			e.fromBytes(n.Bytes())
+			e.hash(n)
+			if t != 1 || l <= 257 {
+				e.str(n)
+				e.rt(n)
+			}
+			e.triple(enc.Name{c}, enc.Name{nb[len(nb)-1]}, n)
+		}
+	}
+	types := []uint64{0, 1, 2, 7, 8, 9, 49, 50, 51, 58, 59, 251, 252, 253, 254, 255, 256, 257, 65534, 65535, 65536, 65537, 1<<32 - 1, 1 << 32, 1<<32 + 1, 1<<63 - 1, 1 << 63, 1<<64 - 2, 1<<64 - 1}
+	for i, t := range types {
+		e.count("sweep-type")
+		c := enc.Component{Typ: enc.TLNum(t), Val: []byte{1}}
+		e.cstr(c)
+		e.crt(c)
+		e.nameBytes(enc.Name{c})
+		e.fromBytes(enc.Name{c}.Bytes())
+		e.str(enc.Name{c})
+		e.rt(enc.Name{c})
+		e.hash(enc.Name{c})
+		for j := i; j < len(types) && j < i+3; j++ {
+			d := enc.Component{Typ: enc.TLNum(types[j]), Val: []byte{1}}
+			e.comp(c, d)
+			e.comp(d, c)
+			e.pair(enc.Name{c}, enc.Name{d})
+			// larger type with a shorter/smaller value must still sort later
+			e.comp(enc.Component{Typ: enc.TLNum(t), Val: []byte{0xff, 0xff}}, enc.Component{Typ: enc.TLNum(types[j]), Val: []byte{}})
+		}
+		e.parse("/" + strconv.FormatUint(t, 10) + "=a")
+		e.pparse("/<" + strconv.FormatUint(t, 10) + "=tag>")
+	}
+	// numeric conventions: every width, shortest and not
+	for _, t := range []uint64{50, 52, 54, 56, 58} {
+		for _, x := range natValues {
+			c := enc.Component{Typ: enc.TLNum(t), Val: enc.Nat(x).Bytes()}
+			e.count("sweep-nat")
+			e.cstr(c)
+			e.crt(c)
+			e.rt(enc.Name{c})
+			for _, pad := range []int{1, 2, 3, 7, 8} {
+				p := enc.Component{Typ: enc.TLNum(t), Val: append(make([]byte, pad), enc.Nat(x).Bytes()...)}
+				e.cstr(p)
+				e.crt(p)
+			}
+		}
+		for l := 0; l <= 10; l++ {
+			c := enc.Component{Typ: enc.TLNum(t), Val: bytes.Repeat([]byte{0x81}, l)}
+			e.cstr(c)
+			e.crt(c)
+		}
+	}
+}
+
+func runGenerated(e *emitter, g *gen, ncases int) {
+	for i := 0; i < ncases; i++ {
+		a := g.name(true)
+		b := g.mutate(a)
+		e.pair(a, b)
+		// triple: chain of close names, or two mutants of the same name
+		var c enc.Name
+		if g.r.Intn(2) == 0 {
+			c = g.mutate(b)
+		} else {
+			c = g.mutate(a)
+		}
+		e.triple(a, b, c)
+		if len(a) > 0 && len(b) > 0 {
+			e.comp(a[g.r.Intn(len(a))], b[g.r.Intn(len(b))])
+		}
+		e.nameBytes(a)
+		// NameFromBytes on the encoding, on a truncation, on a mutated copy, on a copy with one byte inserted
+		bs := a.Bytes()
+		e.fromBytes(bs)
+		if len(bs) > 0 {
+			e.fromBytes(bs[:g.r.Intn(len(bs))])
+			m := append([]byte(nil), bs...)
+			m[g.r.Intn(len(m))] = byte(g.r.Intn(256))
+			e.fromBytes(m)
+			j := g.r.Intn(len(bs))
+			ins := append(append(append([]byte(nil), bs[:j]...), byte(g.r.Intn(256))), bs[j:]...)
+			e.fromBytes(ins)
+		}
+		e.hash(a)
+		// URI printing and the round trip
+		u := g.name(g.r.Intn(4) == 0)
+		e.str(u)
+		e.rt(u)
+		if len(u) > 0 {
+			c := u[g.r.Intn(len(u))]
+			e.cstr(c)
+			e.crt(c)
+		}
+		if i%10 == 0 {
+			e.full(u)
+		}
+		// parser inputs: grammar soup, mostly-good URIs, damaged good URIs (the malformed stream)
+		s := g.uriString()
+		e.count("str-soup")
+		e.parse(s)
+		e.pparse(s)
+		gu := g.goodUri()
+		e.count("str-good")
+		e.parse(gu)
+		e.pparse(gu)
+		if parts := strings.Split(gu, "/"); len(parts) > 1 {
+			p := parts[1+g.r.Intn(len(parts)-1)]
+			e.cparse(p)
+			e.cpparse(p)
+		}
+		bad := g.damage(gu)
+		e.count("str-damaged")
+		e.parse(bad)
+		e.pparse(bad)
+		e.cparse(bad)
+		e.cpparse(bad)
+		if i%4 == 0 {
+			e.ppair(gu, g.damage(gu))
+			e.ppair(gu, gu)
+		}
+	}
+}
+
+func openOut(t *testing.T) (*os.File, *bufio.Writer) {
 	out := os.Getenv("VERIF_OUT")
 	if out == "" {
 		t.Skip("VERIF_OUT not set")
@@ -202,73 +922,86 @@ func TestTrace(t *testing.T) {
 	if err != nil {
 		t.Fatal(err)
 	}
+	return f, bufio.NewWriterSize(f, 1<<20)
+}
+
+func replayFile(e *emitter, path string) (int, error) {
+	f, err := os.Open(path)
+	if err != nil {
+		return 0, err
+	}
 	defer f.Close()
-	w := bufio.NewWriter(f)
+	sc := bufio.NewScanner(f)
+	sc.Buffer(make([]byte, 1<<20), 1<<26)
+	n := 0
+	for sc.Scan() {
+		l := sc.Text()
+		if l == "" || strings.HasPrefix(l, "#") {
+			continue
+		}
+		if e.reexec(l) {
+			n++
+		}
+	}
+	return n, sc.Err()
+}
+
+func writeDist(e *emitter) {
+	keys := make([]string, 0, len(e.dist))
+	for k := range e.dist {
+		keys = append(keys, k)
+	}
+	sort.Strings(keys)
+	for _, k := range keys {
+		fmt.Fprintf(e.w, "DIST %s %d\n", k, e.dist[k])
+	}
+}
+
+// TestTrace: corpus (VERIF_CORPUS dir, *.trace), fixed regressions, convention probe, sweeps, then VERIF_N generated rounds.
+func TestTrace(t *testing.T) {
+	seed, _ := strconv.ParseInt(os.Getenv("VERIF_SEED"), 10, 64)
+	ncases, _ := strconv.Atoi(os.Getenv("VERIF_N"))
+	if ncases == 0 {
+		ncases = 200
+	}
+	thorough := os.Getenv("VERIF_TIER") == "thorough"
+	f, w := openOut(t)
+	defer f.Close()
 	defer w.Flush()
-	g := &gen{r: rand.New(rand.NewSource(seed))}
-	b01 := func(b bool) string {
-		if b {
-			return "1"
-		}
-		return "0"
-	}
-	// fixed corpus of parser inputs first (regressions)
-	for _, s := range []string{"", "/", "//", "/=abc", "=", "/a/=", "/8=a", "/0=a", "/seg=", "/seg=x", "/v=18446744073709551616", "/%", "/%4", "/a%2Fb", "/sha256digest=0", "/sha256digest=zz", "/a=b=c", "///", "/./..", "/65536=a", "/1=abcd"} {
-		parseLine(w, "PARSE", s, hx([]byte(s)))
-	}
-	for i := 0; i < ncases; i++ {
-		a := g.name(true)
-		b := g.mutate(a)
-		fmt.Fprintf(w, "PAIR %s %s %d %s %s %s\n", nameStr(a), nameStr(b), a.Compare(b), b01(a.Equal(b)), b01(a.IsPrefix(b)), b01(b.IsPrefix(a)))
-		fmt.Fprintf(w, "BYTES %s %s\n", nameStr(a), hx(a.Bytes()))
-		// NameFromBytes on the encoding, on a truncation, and on a mutated copy
-		bs := a.Bytes()
-		inputs := [][]byte{bs}
-		if len(bs) > 0 {
-			inputs = append(inputs, bs[:g.r.Intn(len(bs))])
-			m := append([]byte(nil), bs...)
-			m[g.r.Intn(len(m))] = byte(g.r.Intn(256))
-			inputs = append(inputs, m)
-		}
-		for _, in := range inputs {
-			var res string
-			func() {
-				defer func() {
-					if e := recover(); e != nil {
-						res = "panic"
-					}
-				}()
-				n, err := enc.NameFromBytes(in)
-				if err != nil {
-					res = "err"
-				} else {
-					res = "ok " + nameStr(n)
-				}
-			}()
-			fmt.Fprintf(w, "FROMBYTES %s %s\n", hx(in), res)
-		}
-		// hashes: equal names hash equally, i-th prefix hash = hash of the i-component prefix
-		hok := true
-		c := a.Clone()
-		if c.Hash() != a.Hash() {
-			hok = false
-		}
-		ph := a.PrefixHash()
-		if len(ph) != len(a)+1 {
-			hok = false
-		} else {
-			for k := 0; k <= len(a); k++ {
-				if ph[k] != a[:k].Clone().Hash() {
-					hok = false
-				}
+	e := &emitter{w: w, dist: map[string]int{}}
+	if dir := os.Getenv("VERIF_CORPUS"); dir != "" {
+		files, _ := filepath.Glob(filepath.Join(dir, "*.trace"))
+		sort.Strings(files)
+		for _, p := range files {
+			n, err := replayFile(e, p)
+			if err != nil {
+				t.Fatal(err)
 			}
+			e.dist["corpus-lines"] += n
 		}
-		fmt.Fprintf(w, "HASH %s %s\n", nameStr(a), b01(hok))
-		// URI
-		u := g.name(g.r.Intn(4) == 0)
-		fmt.Fprintf(w, "STR %s %s\n", nameStr(u), hx([]byte(u.String())))
-		parseLine(w, "RT", u.String(), nameStr(u)+" "+b01(uriWf(u)))
-		s := g.uriString()
-		parseLine(w, "PARSE", s, hx([]byte(s)))
+	}
+	runFixed(e)
+	e.conventions()
+	g := &gen{r: rand.New(rand.NewSource(seed)), e: e, huge: 4}
+	if thorough {
+		g.huge = 40
+	}
+	runSweeps(e, g, thorough)
+	runGenerated(e, g, ncases)
+	writeDist(e)
+}
+
+// TestReplay: re-execute the implementation on the inputs of the lines in VERIF_OPS.
+func TestReplay(t *testing.T) {
+	ops := os.Getenv("VERIF_OPS")
+	if ops == "" {
+		t.Skip("VERIF_OPS not set")
+	}
+	f, w := openOut(t)
+	defer f.Close()
+	defer w.Flush()
+	e := &emitter{w: w, dist: map[string]int{}}
+	if _, err := replayFile(e, ops); err != nil {
+		t.Fatal(err)
 	}
 }
